@@ -26,7 +26,9 @@ def families(tier):
             F("rename", "restore", "append", fail=2, crash=1, r5=1),
             F("lock", "delete", "append", fail=1, crash=1),
             F("external", "restore", "append", fail=1, crash=1),
-            # (lost AND fail together is the listed C10 double fault; it would also show as WriteAppliedOnce here)
+            # (lost AND fail together is the listed C10 double fault; it also shows as WriteAppliedOnce here and is
+            #  listed under C01 with that signature)
+            F("external", "append", "append", fail=1, lost=1, crash=0),
             F("external", "append", "append", fail=0, lost=1, crash=1),
             F("external", "overwrite", "append", op4="append", att=(2, 2, 2), fail=0, crash=1, r3=99),
         ]
